@@ -36,6 +36,12 @@ func getController(name string) (*Controller, error) {
 		return nil, ErrShuttingDown
 	}
 
+	// Another caller may have started the database while we waited for the lock.
+	controller, ok = controllers[name]
+	if ok {
+		return controller, nil
+	}
+
 	// get db registration
 	registeredDB, err := getDatabase(name)
 	if err != nil {
